@@ -23,7 +23,7 @@ user relies on (P1..P9).  TLC decides everything:
                    A missing repair is a finding (keyed by WHAT fails); a history the variant does not explain is a
                    conformance violation.
 Python only renders scenarios, shuttles files and reads TLC's verdicts."""
-import json, os, re, random, collections, time
+import json, os, re, random, collections, time, threading
 from concurrent.futures import ThreadPoolExecutor
 from rig import common
 
@@ -687,13 +687,13 @@ MC_THOROUGH = [
                                           "MaxPart": 0}, None, 4),
     ("2conn-destroy-live-clients", {"Conns": "{1, 2}", "Scns": sset(["twoget", "pipeline2"]), "SrvOps": sset(["destroy", "cli_free", "rst"]), "ReqRcs": sset("CN"),
                                     "MaxPart": 1, "AccFilter": "TRUE"}, None, 4),
-    ("2conn-wide", dict(WIDE, Conns="{1, 2}", Scns=sset(["pipeline2", "bigbody", "errors"]), SrvOps=sset(["rst"]), MaxErr=0, ShortReads="FALSE"), None, 4),
+    ("2conn-callback-codes-reset", {"Conns": "{1, 2}", "Scns": sset(["pipeline2", "bigbody"]), "ReqRcs": sset("CN"), "SndRcs": sset("CN"), "MaxPart": 1,
+                                    "UserClose": "TRUE", "SrvOps": sset(["rst"])}, None, 4),
     ("1conn-bigger-buffers", dict(WIDE, Scns=sset(ALLSCN), Init0=6, Max0=12, SrvOps=sset(["rst", "cli_free", "shutdown", "destroy"])), None, 4),
     ("1conn-tiny-buffers", dict(WIDE, Scns=sset(ALLSCN), Init0=3, Max0=7, SrvOps=sset(["rst", "cli_free"])), None, 4),
     ("1conn-no-timeouts-no-callbacks", dict(WIDE, Scns=sset(ALLSCN), RcvTmo="FALSE", SndTmo="FALSE", ReqCbOn="FALSE", SndCbOn="FALSE"), None, 4),
     ("1conn-server-close-flag", dict(WIDE, Scns=sset(ALLSCN), RespClose="TRUE", ReqConn="FALSE"), None, 4),
-    ("liveness-2conn", {"Conns": "{1, 2}", "Scns": sset(["pipeline2", "twoget"]), "ReqRcs": sset("CN"), "SndRcs": sset("CN"), "MaxAgain": 1, "MaxPart": 1,
-                        "SrvOps": sset(["rst"])}, "Terminates", 4),
+    ("liveness-2conn", {"Conns": "{1, 2}", "Scns": sset(["twoget"]), "ReqRcs": sset("CN"), "MaxPart": 1}, "Terminates", 4),
 ]
 NEG = {   # the small world in which the model without repair f violates a stated property
     "reallocptrs": {"Scns": sset(["bigbody"])},
@@ -723,11 +723,13 @@ class _Rec:
         for m, a in self.calls: getattr(self.ctx, m)(*a)
         self.ctx.cov.update(self.cov)
 
-def model_checking(ctx):
-    """the repaired model has every property"""
+def model_checking(ctx, others_done):
+    """the repaired model has every property.  At most 4 TLC workers run at any time: one here while the trace validation (2)
+    and the negative variants (1) are busy, four once they are done."""
     todo = list(MC_QUICK) + ([] if ctx.quick else list(MC_THOROUGH))
-    for label, over, props, workers in todo:
+    for label, over, props, _w in todo:
         cfg = mc_cfg("_x05_mc_%s.cfg" % label, over, props)
+        workers = 4 if all(e.is_set() for e in others_done) else 1
         r = common.tlc("MC_HttpSrv", cfg=cfg, workers=workers, timeout=1500, xmx="8g", xss="128m")
         ctx.tlc_stats(r, "MC_HttpSrv/" + label)
         ctx.log("model %s: rc=%s distinct=%d depth=%d wall=%.0fs %s" % (label, r.rc, r.distinct, r.depth, r.wall, r.violation or ""))
@@ -747,7 +749,7 @@ def model_negatives(ctx):
     def neg(f):
         over = dict(NEG[f]); over["Fix"] = sset([x for x in ALLFIX if x != f])
         return f, common.tlc("MC_HttpSrv", cfg=mc_cfg("_x05_neg_%s.cfg" % f, over), workers=1, timeout=900, xmx="3g", xss="128m")
-    with ThreadPoolExecutor(max_workers=2) as ex:
+    with ThreadPoolExecutor(max_workers=1) as ex:
         for f, r in ex.map(neg, ALLFIX):
             ctx.tlc_stats(r, "MC_HttpSrv/without-" + f)
             viol = re.findall(r"viol \|-> (\{[^}]*\})", r.out)
@@ -816,8 +818,12 @@ def run(ctx):
     t0 = time.time()
     with ThreadPoolExecutor(max_workers=6) as ex:
         rec1, rec2 = _Rec(ctx), _Rec(ctx)
-        fut_mc = ex.submit(model_checking, rec1)
-        fut_neg = ex.submit(model_negatives, rec2)
+        neg_done, trace_done = threading.Event(), threading.Event()
+        def _neg():
+            try: model_negatives(rec2)
+            finally: neg_done.set()
+        fut_mc = ex.submit(model_checking, rec1, (neg_done, trace_done))
+        fut_neg = ex.submit(_neg)
         runs = list(ex.map(lambda s: run_scenario(exe, d, s[0], s[1]), list(SCENARIOS) + rand))
         ctx.log("driver: %d scenarios executed in %.0fs" % (len(runs), time.time() - t0))
         wruns = [r for r in runs if r["name"] in wnames]
@@ -880,6 +886,7 @@ def run(ctx):
                      "(TLC, Trace_HttpSrv); the repaired model rejects it.\n%s\n%s"
                      % (WHAT[f], rn["name"], f, "\n".join(tail), rn["out"][-1200:] if rn["rc"] not in (0,) else ""),
                      {"scenario": rn["name"], "text": rn["text"], "repair": f})
+        trace_done.set()
         fut_mc.result(); fut_neg.result()
         rec1.replay(); rec2.replay()
     kinds = collections.Counter(e["e"] for r in runs for e in r["evs"])
